@@ -12,887 +12,704 @@ Definition show_fres (r : fres) : string :=
   end.
 Definition check (rs : list rune) : string := digest (show_fres (format_res rs)).
 Definition full (rs : list rune) : string := show_fres (format_res rs).
-Eval vm_compute in ("<<<M263>>>" ++ check (runes_of_ascii "
-packet Z9_ //x
-{ @calculatedFrom( ""1"" )
-match
-body as u8x{ [ 7 ] :
-u ,
-[7
-,00, ""a\""b""
-, """" , ""\n"" , 00
-] : charz , 1	: // c
-Packet
-, """ ++ [28040; 24687]%N ++ runes_of_ascii """ :
-f32a ,  00 : // trailing space 
-len } ,@lengthOf(calculatedFrom )	MetaDataX
-    , Packet	@lengthOf(
-    int ) , repeat // `tick` ""quote"" 'q'
-char[ 7 ]calculatedFrom, @calculatedFrom(""a\\"" ) zchar[ //
-255 // " ++ [128512]%N ++ runes_of_ascii " emoji
-] f32a @calculatedFrom( """ ++ [233]%N ++ runes_of_ascii "t" ++ [233]%N ++ runes_of_ascii """ ) ,	@calculatedFrom( ""a\""b"" // packet A { u8 x, }
-)char[7
-    //	t
-    ] i8i8 @calculatedFrom(""a\\"") `crlf
-line` ,zchar[
-    0123456789	]
-x `line1
-line2`
-,@leftPad () repeat
-u64 stringy , @lengthOf( x	) repeat
-body
-{//	t
-Z9_ {
-repeat asx , repeat crc i64_ // " ++ [27880; 37322]%N ++ runes_of_ascii "
-, repeat rootA { repeat rootA MetaDataX `line1
-line2`
-    // `tick` ""quote"" 'q'
-    ,match
-i64_ as
-calculatedFrom {
-    7
-:
-x[ 7 ] : stringy , ""1"": i8i8 , [
-""1"" , 42 ,
-// trailing space 
+Eval vm_compute in ("<<<M5>>>" ++ check (runes_of_ascii "MetaData  asx {char[] MetaDataX ,
+lengthOf Z9_	, crc
+    Foo ,char[ 4294967296]
+BodyLength , Foo leftPad `doc`, tag // a // b
+u128 , } root packet
+    stringy { // trailing space 
+match Header as
+    repeatCount	{ [ ""{,}""] :
+Header
 /// triple
-""" ++ [233]%N ++ runes_of_ascii "t" ++ [233]%N ++ runes_of_ascii """ , 10 ,
-255 , 0 , 10 ]
-: u ,
-""x y""
-:
-    i8i8 }
-// `tick` ""quote"" 'q'
-//x
-,uint64 _x `
-` ,char[ 0 ] i64_ @calculatedFrom( ""CRC32""
-)
-    , }, x_y_z {
-char[] T
+//
+,255 :repeatCount , 00 :pack, 1 : trueish
+    , 7
+    : A }
+    ,
+T
+    {Z9_
+`
+` ,
+} ,
+    int16 o
+@calculatedFrom(
+""it's""
+) `line1
+line2`	, match zchar
+as As{ ""CRC32"" :	a1, 42: Header [ 10
+    //
+    ] : zchar // trailing space 
+,
+    }// " ++ [128512]%N ++ runes_of_ascii " emoji
+, @tag( 42 )repeat i64_{
+    // c
+    char[00 ] _x `{ , }` ,
+}
+,repeat //x
+char[] uint8x
+`crlf
+line` ,@leftPad
+(	'\x00'
+    ) @tag( 7 )
+    int32
 // a // b
 // @lengthOf(
-,} ,} ,repeat  u64 Foo `a\`,
-    uint8
-uint8x,
-match
-//	t
-// trailing space 
-roots
-as chars {1
-    : _x ""a\""b"" :uint8x, 42 : metadata // " ++ [128512]%N ++ runes_of_ascii " emoji
-, // `tick` ""quote"" 'q'
-[// @lengthOf(
-""\n"" ,
-255]
-: zchar
-[ """ ++ [233]%N ++ runes_of_ascii "t" ++ [233]%N ++ runes_of_ascii """ ,3
-, 4294967296 ,// trailing space 
-0123456789 , ""x y"" ] : metadata[ // c
-""it's"" , ""// no comment""
-]  :Z9_
-    , }
-,	}
-    , } // a // b
-MetaData rootA	{ char[ 4294967296 ] msg_type,// @lengthOf(
-char[]  u128, uint64 a1 , int8 crc , Pad
-    msg_type `doc`
-,
-}
-//	t
-/// triple
-packet x_y_z
-    {@lengthOf( crc) match packetx as f32a	{ 0123456789:A
-,	00 :	u // @lengthOf(
-}, }
-")).
-Eval vm_compute in ("<<<M257>>>" ++ check (runes_of_ascii "options
-{
-BodyLength
-=3 ;// " ++ [128512]%N ++ runes_of_ascii " emoji
-T = ""packet""
-// @lengthOf(
-// trailing space 
-;
-// c
-// trailing space 
-crc = true ;
-falsey= '\x00'/// triple
-;
-} root packet A
-    {@leftPad (
-'0' )	char[
-65535 ] Header  `" ++ [233]%N ++ runes_of_ascii "` ,
-@rightPad( '0' ) //
-a1 @lengthOf( msg_type ) , @lengthOf( rootA )
-    match
-_x as //x
-stringy {""CRC32"" : chars, 3// `tick` ""quote"" 'q'
-:float , 255	:	asx // `tick` ""quote"" 'q'
-, 10  : tag ,//
-} ,
-    @calculatedFrom(
-    """ ++ [128512]%N ++ runes_of_ascii """	) u32 u8x`crlf
-line` , repeat char[]	asx `a\` , @rightPad ( '0'	)match f32a  as Packet
-    { [ 255 , ""CRC32"" , 007
-, ""1"",""packet"" , 00 ,
-    4294967296 ]	: calculatedFrom , ""packet"" :
-    falsey, ""a\""b"": body , 7// a // b
-: Packet // " ++ [128512]%N ++ runes_of_ascii " emoji
-0123456789 :	i64_ ,
-    // a // b
-    [4294967296 , 0123456789 ]  : // `tick` ""quote"" 'q'
-options1	} ,crc /// triple
-@lengthOf(	Foo
-    )
-    ,
-@calculatedFrom( ""{,}"")@lengthOf(metadata ) @lengthOf( i8i8
-)int64 options1 @calculatedFrom(""CRC32"" )
-    `line1
-line2` , // @lengthOf(
-} packet a1 // `tick` ""quote"" 'q'
-{ match lengthOf//
-as x_y_z
-{ ""it's"" :matchKey
-//
-// @lengthOf(
-, 10 :
-Packet , [ //x
-""abc""
-    ]// a // b
-: A 10 //x
-: metadata
-    ,
-    } ,
-}MetaData
-    body { char string_, char[]
-x, len Pad , string
-    leftPad , } // trailing space ")).
-Eval vm_compute in ("<<<M1734>>>" ++ check (runes_of_ascii "// a // b
-packet stringy {
-    string zchar,
-    repeat T,
-    match u as charz {
-        007 : float,
-        ""\" ++ [233]%N ++ runes_of_ascii """ : Logon,
-        ""a	b"" : pack,
-    },
-    match uint8x as roots {
-        1 : len,
-    },
-}
-
-packet zchar {
-    roots options1 `// not a comment`,
-    int64 As,
-    i16 float @lengthOf(falsey) `a\`,
-    int64 msg_type `tab	here`,
-    @tag(0)
-    repeat uint8x,
-    @lengthOf(x)
-    repeat metadata,
-    zchar[0] int,
-    uint64 zchar,
-    zchar[7] msg_type,
-    @calculatedFrom(""" ++ [28040; 24687]%N ++ runes_of_ascii """)
-    crc,
-}
-
-root packet zchar {
-    repeat leftPad,
-}
-
-packet A {
-    @lengthOf(string_)
-    x @lengthOf(options1) `two words`,
-    string len,
-}
-
-packet falsey {
-    i64_ @calculatedFrom(""{,}""),
-    repeat string chars,
-    zchar[7] calculatedFrom,
-    Header {
-        char u `two words`,
-        repeat char[] tag `say ""hi""`,
-        Z9_ @lengthOf(T) `line1
-        line2`,
-    },
-    msg_type @calculatedFrom(""// no comment""),
-    @rightPad('\x00')
-    @lengthOf(asx)
-    falsey,
-}// packet A { u8 x, }")).
-Eval vm_compute in ("<<<M1488>>>" ++ check (runes_of_ascii "// top
-packet Frame {
-    // c2a
-    // c2b
-    u8 HK,
-    // c5
-    u8 BK,// c8a
-    // c8b
-    u8 TK,// c11a
-    // c11b
-    match HK as Hdr {
-        // c16
-        1 : HdrA,
-        2 : HdrB,
-        // c24a
-        // c24b
-    },
-    // c26
-    match BK as Body {
-        // c31
-        1 : BodyA,
-        // c35
-        2 : BodyB,
-    },// c41
-    match TK as Trl {
-        // c46a
-        // c46b
-        1 : TrlA,
-        // c50a
-        // c50b
-    },// c52a
-    // c52b
-}// c53a
-
-// c53b
-packet HdrA {
-    u8 a,// c59
-}// c60
-
-packet HdrB {
-    // c63a
-    // c63b
-    u16 b,// c66
-}// c67
-
-packet BodyA {
-    // c70a
-    // c70b
-    u32 c,
-}// c74
-
-packet BodyB {
-    // c77
-    u64 d,// c80a
-    // c80b
-}// c81a
-
-// c81b
-packet TrlA {
-    // c84
-    u8 e,
-    // c87
-}// c88a
-
-// c88b
-root packet Msg {
-    Frame,// c94a
-    // c94b
-    u8 x,// c97a
-    // c97b
-}
-// c98")).
-Eval vm_compute in ("<<<M228>>>" ++ check (runes_of_ascii "packet
-//
-// " ++ [27880; 37322]%N ++ runes_of_ascii "
-BodyLength  {
-repeat
-    // @lengthOf(
-    zchar[	255]tag `crlf
-line` , } MetaData BodyLength	{
-char[ 65535] //	t
-packetx `" ++ [28040; 24687; 31867; 22411]%N ++ runes_of_ascii "` , } options
-    {
-    metadata =3; // trailing space 
-} packet Packet
-{ o { uint16	Logon
-    , } , @leftPad (  )char[ 0123456789 ]
-a1 `" ++ [28040; 24687; 31867; 22411]%N ++ runes_of_ascii "` // a // b
-,
-    repeat string
-lengthOf
-    `{ , }`	,stringy crc
-,@rightPad (
-' ' ) u32	MetaDataX
-    ,
-@rightPad('0' ) tag	{repeat f64 tag `u8 x,`
-, }
-    //	t
-    , char[
-    00 ] uint8x `` , match leftPad  as Header {""" ++ [233]%N ++ runes_of_ascii "t" ++ [233]%N ++ runes_of_ascii """  : Foo
-, [	""\" ++ [233]%N ++ runes_of_ascii """
-, 007
-,00 , 10, ""\" ++ [233]%N ++ runes_of_ascii """ ]: crc
-, [ 1 ,007 , ""a\\""
-    ,
-""packet""
-    ]: //	t
-len // packet A { u8 x, }
-, 10 : MetaDataX
-//x
-// " ++ [128512]%N ++ runes_of_ascii " emoji
-,  }
-//	t
-/// triple
-, } packet
-    i64_{
-@rightPad	('\x00'
-)
-@leftPad(
-) i8 body@calculatedFrom(""" ++ [233]%N ++ runes_of_ascii "t" ++ [233]%N ++ runes_of_ascii """) `it's` , }
-// @lengthOf(
-")).
-Eval vm_compute in ("<<<M93>>>" ++ check (runes_of_ascii "packet float { char[]
-    u8x
-@lengthOf( roots ) ,
-}MetaData leftPad	{ string
-    // `tick` ""quote"" 'q'
-    a1, }root
-packet // " ++ [27880; 37322]%N ++ runes_of_ascii "
-pack { falsey,
-    /// triple
-    match Logon
-as // " ++ [128512]%N ++ runes_of_ascii " emoji
-trueish
-{""packet""
-    : Foo ,"""" : len, 0123456789: i64_ , ""it's"" : packetx
-    ,
-    255
-    : len
-, }
-    , repeat
-As As `" ++ [233]%N ++ runes_of_ascii "` , @tag( 3  ) uint32 a1
-, repeat  zchar[ 4294967296]
-pack	,@leftPad (' ' )  zchar  @lengthOf( string_ ) `// not a comment` , repeat int ,
-repeat
-i8i8 // " ++ [27880; 37322]%N ++ runes_of_ascii "
-{ u64
-    // a // b
-    tag `say ""hi""`	,u8x , char trueish  , repeat // packet A { u8 x, }
-float32
-    stringy `line1
-line2` ,} ,match o
-as	o { 007  : float },
-// packet A { u8 x, }
-// c
-repeat
-    Pad ,
-// " ++ [27880; 37322]%N ++ runes_of_ascii "
-// trailing space 
-}")).
-Eval vm_compute in ("<<<M58>>>" ++ check (runes_of_ascii "packet pack
-// c
-// packet A { u8 x, }
-{u8 a1
-// trailing space 
-/// triple
-`say ""hi""` // packet A { u8 x, }
-, @leftPad (
-'\x00' )  uint8 Logon	`
-` // `tick` ""quote"" 'q'
-,
-char[]lengthOf // " ++ [27880; 37322]%N ++ runes_of_ascii "
-`" ++ [233]%N ++ runes_of_ascii "` ,
-//
-//x
-repeat char[] As,
-    //	t
-    @lengthOf(string_ )  @calculatedFrom(
-""a\\"" )
-    repeat
-    u8x	o	, char string_ @calculatedFrom(
-""a\""b"" )
-`tab	here`
-    , repeat As { char[
-    // packet A { u8 x, }
-    0 ] i64_//	t
-@lengthOf( T)
-`" ++ [233]%N ++ runes_of_ascii "` , char[4294967296	]
-T @calculatedFrom( ""\" ++ [233]%N ++ runes_of_ascii """ )
-, trueish
-, repeat int
-{string Logon @calculatedFrom(	""1"" ) , metadata  ,
-uint32
-Z9_  , // " ++ [27880; 37322]%N ++ runes_of_ascii "
-} , },@tag( 00 ) //	t
-i16  a1 `a\`
-    ,
-    }
-")).
-Eval vm_compute in ("<<<M1892>>>" ++ check (runes_of_ascii "
-packet  charz
-{  
-  // " ++ [27880; 37322]%N ++ runes_of_ascii "
-	/// triple
-    repeat	// c
-      string
-
-    int
-
-    `" ++ [28040; 24687; 31867; 22411]%N ++ runes_of_ascii "` ,  @calculatedFrom(
-""it's"" )
-@tag(
-
-255 ) 
-f64 	 // a // b
-    asx
-
-    ,string
-    T`doc` , zchar[
-
-    007 
-]
-	tag @lengthOf(//
-    Z9_	)
-`// not a comment`
-, } options	{
-
-u
-=
-u16;}	MetaData
-	chars
-
-    { i16
-falsey 
-,	f64
-pack ,
-
-char[ 
-1
-
-    ]
-    asx	`it's`
-	,
-char[] body
-, 
-	    // `tick` ""quote"" 'q'
-
-  //x
-
-  }  packet
-	leftPad
-    {  @rightPad
-
-    (
-// @lengthOf(
-    //x
-) repeat  Pad  float`{ , }` ,  } options
-
-    {
-
-roots
-    =
-    true ;
-
-    }
-")).
-Eval vm_compute in ("<<<M1115>>>" ++ check (runes_of_ascii "packet float
-    // c1
-{ // c2
-@rightPad // c3a
-  // c3b
-( // c4a
-  // c4b
-) // c5a
-  // c5b
-rootA // c6
-@lengthOf( // c7a
-  // c7b
-trueish // c8
-)
-    // c9
-,
-    // c10
-stringy // c11a
-  // c11b
-@lengthOf( // c12a
-  // c12b
-matchKey )
-    // c14
-, // c15a
-  // c15b
-char[ 4294967296 ]
-    // c18
-pack @lengthOf(
-    // c20
-uint8x
-    // c21
-) // c22a
-  // c22b
-,
-    // c23
-} // c24
-root // c25
-packet trueish {
-    // c28
-repeat uint64
-    // c30
-u128
-    // c31
-`line1
-line2` // c32
-,
-    // c33
-}
-    // c34
-")).
-Eval vm_compute in ("<<<M1235>>>" ++ check (runes_of_ascii "// top
-options
-    // c0
-{
-    // c1
-f32a
-    // c2
-=
-    // c3
-0
-    // c4
-}
-    // c5
-packet
-    // c6
-trueish
-    // c7
-{
-    // c8
-}
-    // c9
-MetaData
-    // c10
-_x
-    // c11
-{
-    // c12
-char[
-    // c13
-0123456789
-    // c14
-]
-    // c15
-zchar
-    // c16
-,
-    // c17
-string
-    // c18
-crc
-    // c19
-,
-    // c20
-char[
-    // c21
-1
-    // c22
-]
-    // c23
-options1
-    // c24
-,
-    // c25
-uint8
-    // c26
 repeatCount
-    // c27
+    @calculatedFrom(
+""x y"" )
+`// not a comment` , u32 zchar
+    `
+` , repeat stringy { i8i8 lengthOf
+, } , // packet A { u8 x, }
+@calculatedFrom(  ""abc"" ) @lengthOf( tag ) @lengthOf( /// triple
+rootA )  char[3	] // c
+rootA`" ++ [233]%N ++ runes_of_ascii "` ,// c
+}MetaData crc
+{
+float32
+asx `" ++ [233]%N ++ runes_of_ascii "` ,	string i64_// " ++ [128512]%N ++ runes_of_ascii " emoji
 ,
-    // c28
-}
-    // c29
-")).
-Eval vm_compute in ("<<<M1638>>>" ++ check (runes_of_ascii "  options{u 
-=
-7  
-  // " ++ [27880; 37322]%N ++ runes_of_ascii "
-
-roots
-	= zchar[
-
-65535]	msg_type
-    =""" ++ [233]%N ++ runes_of_ascii "t" ++ [233]%N ++ runes_of_ascii """
-    ;x
-=
-false
-}
-MetaData string_
-	{
-char[ 	 // trailing space 
-	  42 
-        //x
+    }
+root packet Packet
+    //
+    {charz @lengthOf( zchar) ,	f32
+    f32a `{ , }` // a // b
+, i64 matchKey @lengthOf( leftPad )
+    , string trueish, @leftPad (  '0')
+    // trailing space 
+    tag@lengthOf( // a // b
+string_ ) `doc` , match stringy
+// @lengthOf(
+// @lengthOf(
+as calculatedFrom
+    { [
+0123456789 ]: repeatCount
+//	t
+//
+,} ,// trailing space 
+char[
+3]
+Header ,
+int64 MetaDataX
+,	@leftPad( ) len { packetx @lengthOf(chars ) `` ,
+    }, @rightPad ( '0'
+    )  x_y_z
+,
+} options{ rootA
+// packet A { u8 x, }
+//x
+= '0'
+; Foo =char
+    ;A
+    = zchar[ 0123456789 ]
+// " ++ [27880; 37322]%N ++ runes_of_ascii "
+//x
+;packetx = """ ++ [233]%N ++ runes_of_ascii "t" ++ [233]%N ++ runes_of_ascii """
+float = true } //x")).
+Eval vm_compute in ("<<<M225>>>" ++ check (runes_of_ascii "packet T
     // " ++ [128512]%N ++ runes_of_ascii " emoji
+    { match repeatCount as
+Packet {
+    ""packet"" : msg_type , 00 :
+    Foo
+    ,""" ++ [128512]%N ++ runes_of_ascii """ : trueish, """": repeatCount
+    [ // packet A { u8 x, }
+4294967296 , 65535 ] :	u ,	}, @calculatedFrom( ""a\\"" )
+    float32 len @lengthOf(// " ++ [128512]%N ++ runes_of_ascii " emoji
+string_
+    ), stringy Pad, roots{ repeat x_y_z
+    `// not a comment`
+, T
+`" ++ [233]%N ++ runes_of_ascii "` , }, @tag(
+007 )  _x
+{// " ++ [128512]%N ++ runes_of_ascii " emoji
+char[] body
+@calculatedFrom( """ ++ [233]%N ++ runes_of_ascii "t" ++ [233]%N ++ runes_of_ascii """
+    //	t
+    ) ,repeat Pad// packet A { u8 x, }
+``
+// c
+/// triple
+, }
+    //x
+    , match	u as packetx{// `tick` ""quote"" 'q'
+[ ""// no comment"" ,
+007]	: T
+, [  ""\" ++ [233]%N ++ runes_of_ascii """// " ++ [27880; 37322]%N ++ runes_of_ascii "
+] :// trailing space 
+u8x } , @rightPad( ) int8 _x , @lengthOf(
+A	)match/// triple
+crc
+as metadata { [ 00,
+    //	t
+    ""a\""b"" ,3
+    , 1
+    ,
+10 ] : Packet , //	t
+[
+4294967296	, ""abc"" , """"] // @lengthOf(
+:
+// `tick` ""quote"" 'q'
+// " ++ [27880; 37322]%N ++ runes_of_ascii "
+a1 , """ ++ [28040; 24687]%N ++ runes_of_ascii """ // `tick` ""quote"" 'q'
+:
+    repeatCount  , } , }options { }MetaData Header
+{  trueish Pad ,
+    } MetaData Z9_ { char[]
+metadata ,
+// " ++ [128512]%N ++ runes_of_ascii " emoji
+// packet A { u8 x, }
+Header A
+`doc`
+// a // b
+// a // b
+, //x
+uint32 // " ++ [27880; 37322]%N ++ runes_of_ascii "
+packetx ,
+int16 uint8x
+    //
+    , Header// @lengthOf(
+leftPad
+    , // packet A { u8 x, }
+}
+// trailing space 
+")).
+Eval vm_compute in ("<<<M1725>>>" ++ check (runes_of_ascii "// top
+options {
+    // c1
+    LittleEndian = false;// c5
+    ArrayPrefixLenType = u8;// c9
+    FixedStringPadFromLeft = true;
+    FixedStringPadChar = '0';// c17a
+    // c17b
+}// c18
 
-]
-	i8i8
+packet Heartbeat {
+    // c21
+    string lastPx,// c24
+    uint8 Qty,// c27
+    i64 Acct,
+    // c30
+    char[4] Ref,
+}// c36
 
-    `" ++ [28040; 24687; 31867; 22411]%N ++ runes_of_ascii "`
-    , u8 x_y_z
+packet Fill {
+    // c39a
+    // c39b
+    uint8 Ref,// c42a
+    // c42b
+    Heartbeat,
+    // c44
+    f32 OrderId,// c47
+    repeat f32 x,
+}// c52
 
-    ,packetx 
-lengthOf
-    `` 
-      // " ++ [27880; 37322]%N ++ runes_of_ascii "
+root packet Order {
+    // c56a
+    // c56b
+    zchar[2] OrderId,
+    // c61
+    zchar[2] Acct,
+    // c66
+    zchar[1] Note,// c71a
+    // c71b
+    zchar[9] Qty,
+    // c76
+    string price,
+    // c79
+    string tag7,
+    u32 x,
+    // c85
+    match x as Body {
+        // c90
+        123 : Fill,
+        // c94
+        112 : Heartbeat,
+        // c98a
+        // c98b
+    },// c100a
+    // c100b
+    u32 seqNo @calculatedFrom(""CRC32""),
+    // c106
+}
+// c107")).
+Eval vm_compute in ("<<<M1681>>>" ++ check (runes_of_ascii "options {
+    // " ++ [27880; 37322]%N ++ runes_of_ascii "
+    //x
+    float = char[];
+    Header = false
+    //
+    /// triple
+}
 
-,
-    T Header
-	`line1
-line2`
+// `tick` ""quote"" 'q'
+options {
+    x = char[];
+}
+
+MetaData i64_ {
+    f64 As `
+    `,
+    repeatCount MetaDataX,
+    repeatCount u128,
+    metadata msg_type `tab	here`,
+}
+
+packet options1 {
+    repeat char[0123456789] T,
+    @tag(65535)
+    //x
+    @calculatedFrom(""CRC32"")
+    @calculatedFrom(""" ++ [28040; 24687]%N ++ runes_of_ascii """)
+    repeat string Logon,
+    @lengthOf(u128)
+    stringy {
+        string_ x,
+    },
+    @tag(10)
+    u64 tag @lengthOf(roots),
+    Foo @lengthOf(Foo) `// not a comment`,
+    string pack `a\`,
+    match A as charz {
+        [3] : x,
+    },
+    @tag(42)
+    f64 msg_type @lengthOf(trueish),
+    match pack as options1 {
+        """ ++ [28040; 24687]%N ++ runes_of_ascii """ : string_,
+        [65535, 7, ""a\""b"", 7] : f32a,
+        4294967296 : o,
+    },
+    char[] falsey,
+}// " ++ [128512]%N ++ runes_of_ascii " emoji")).
+Eval vm_compute in ("<<<M1359>>>" ++ check (runes_of_ascii "options {
+    StringPrefixLenType = u16;
+    ArrayPrefixLenType = u32;
+    FixedStringPadFromLeft = true;
+    FixedStringPadChar = '0';
+}
+packet Cancel {
+}
+packet Party {
+}
+packet Logon {
+}
+packet Ack {
+}
+packet Logout {
+    repeat InSym87 {
+        InClordid94 {
+            string clOrdID,
+        },
+        string Px,
+        i16 Qty,
+        repeat InCount71 {
+            repeat Cancel,
+            uint16 Tail,
+            char[2] x,
+            repeat string Ref,
+        },
+        Cancel,
+    },
+}
+root packet Order {
+    repeat string tag7,
+    @leftPad(' ') char[3] Px,
+    u8 Qty,
+    match Qty as Body {
+        [28, 62] : Logon,
+        148 : Ack,
+        88 : Party,
+        184 : Cancel,
+    },
+    u16 Note @calculatedFrom(""CR\
+C32""),
+}
+")).
+Eval vm_compute in ("<<<M1860>>>" ++ check (runes_of_ascii "options {
+}
+
+packet i8i8 {
+    @tag(3)
+    x @calculatedFrom(""it's""),
+    @lengthOf(f32a)
+    match rootA as uint8x {
+        0 : string_,
+        42 : Packet,
+    },
+    @leftPad('\x00')
+    i64_ packetx `u8 x,`,
+    @calculatedFrom(""x y"")
+    matchKey {
+        len,
+    },
+    @lengthOf(matchKey)
+    @calculatedFrom(""abc"")
+    @lengthOf(x_y_z)
+    /// triple
+    repeat metadata `line1
+        line2`,
+    lengthOf repeatCount,/// triple
+    int32 roots @calculatedFrom(""`tick`"") `" ++ [233]%N ++ runes_of_ascii "`,
+    zchar[1] Packet @calculatedFrom(""// no comment""),
+}
+
+packet options1 {
+    @lengthOf(uint8x)
+    A @calculatedFrom(""it's"") `doc`,
+}
+
+root packet crc {
+    char[65535] chars,
+}")).
+Eval vm_compute in ("<<<M1551>>>" ++ check (runes_of_ascii "
+
+  packet stringy
+
+//	t
+
+	//
+{ 
+repeat
+
+T// trailing space 
+    {
+    u64  lengthOf  `tab	here`	,
+repeat
+_x
+{
+    match
+calculatedFrom	as  Header {	[ """ ++ [233]%N ++ runes_of_ascii "t" ++ [233]%N ++ runes_of_ascii """
+
+]: _x
+    ,	// @lengthOf(
+[
+""packet"" ]
+
+    : MetaDataX
+
+    ,255
+: u128
+    , 42
+	:
+A
+
+""// no comment""
+    : body, } ,
+repeat
+
+    crc
+    Foo ,	charz , }
+    ,
+    zchar[  1] i8i8@calculatedFrom(	""x y"" )
+    ,	uint8x 
+    // " ++ [27880; 37322]%N ++ runes_of_ascii "
+	Pad
+
+`line1
+line2` , }
+
+    , @lengthOf( u)  char[ 	 //x
+	  4294967296 
+]	crc ,	@tag(
+
+    007 	 //x
+
+)
+repeatCount, 
+repeat
+//x
+  char[]
+	Header
 
     ,
-char[]	// " ++ [27880; 37322]%N ++ runes_of_ascii "
-u8x
-	`two words` ,
-    } packet	float//x
-    {calculatedFrom ,
-	@rightPad
-    ( '0') 
-char[  3
-	]u128, } ")).
-Eval vm_compute in ("<<<M1259>>>" ++ check (runes_of_ascii "// top
-packet // c0
-B // c1a
-  // c1b
-{ // c2
-u8 // c3a
-  // c3b
-a // c4
-, } // c6
-root // c7a
-  // c7b
-packet // c8a
-  // c8b
-P { // c10
-u8
-    // c11
-K , // c13
-u8 // c14a
-  // c14b
-L // c15a
-  // c15b
-@lengthOf( // c16a
-  // c16b
-Body )
-    // c18
-, match // c20
-K as // c22a
-  // c22b
-Body
-    // c23
-{ 1 :
-    // c26
-B // c27
-, }
-    // c29
-,
-    // c30
-}
-    // c31
+	@rightPad ( )
+char[]string_
+
+    `a\` ,  }
+
 ")).
-Eval vm_compute in ("<<<M1674>>>" ++ check (runes_of_ascii "
-
-  root packet
-	int{
-
-match MetaDataX as
-
-    charz
-    {
-255
-:
-
-uint8x
-,
-
-65535 : // @lengthOf(
-
-u128""\" ++ [233]%N ++ runes_of_ascii """
-
-:
-	o  , 0123456789
-	:  _x 
-""{,}""	: 
-matchKey
-	// `tick` ""quote"" 'q'
-    // `tick` ""quote"" 'q'
-[
-
-4294967296
-    , 
-"""",	10 ] : charz , 
-}	,@lengthOf(  roots
-
-    )	x  @calculatedFrom(
-	""\n"" ),
-    i32	tag  ,
-    }")).
-Eval vm_compute in ("<<<M1359>>>" ++ check (runes_of_ascii "options
-    {
-	LittleEndian 
+Eval vm_compute in ("<<<M1509>>>" ++ check (runes_of_ascii "  options
+{	StringPrefixLenType
 =
-false ; StringPrefixLenType
+u8 ;ArrayPrefixLenType
+=
+	u8 ;
+	FixedStringPadFromLeft= false	; FixedStringPadChar =
+    ' ' ; }packet Ack
+{
+    char[]
+	tag7 ,	}packet
+Reject  { InSym61 {
 
-    =
+    repeat Ack 
+,	zchar[
+
+4 ]
+	f1 
+, },}packet Logout
+	{
+
+    char[ 4 ] clOrdID,	}
+
+root packet Cancel
+{
+	@leftPad
+    (
+
+    ' '  )
+
+char[
+10]price
+
+,
+u8
+    x ,
+
+u32
+    venue 
+@lengthOf( Body )
+
+,
+
+match
+
+x
+
+    as
+    Body
+{	[  92
+,
+175
+]	:
+	Logout , 26
+	: Reject ,
+	144 :
+
+    Ack
+    , 
+},
 u16
-
-; }  packet
-    Heartbeat
-	{ @rightPad(
-
-    '0')
-	char[
-7 ]
-seqNo	,
-	uint64 Tail
-,
-
-    i16
-Flags 
-,
-u16
-msgKind,  } root
-
-packet
-    Reject
-{ 
-zchar[
-	3
-]tag7
-
-,
-    repeat Heartbeat ,	repeat 
-string
-	clOrdID,	}
+count  @calculatedFrom(""CRC32""
+    ),
+	}
 
 ")).
-Eval vm_compute in ("<<<M1689>>>" ++ check (runes_of_ascii "//	t
-    options 
-{	chars
-
-    = true	As= char[] 
-// trailing space 
-// " ++ [128512]%N ++ runes_of_ascii " emoji
-	; 	 /// triple
-  	x_y_z = 7
-
-;	// " ++ [27880; 37322]%N ++ runes_of_ascii "
-    i8i8  =
-true packetx=  /// triple
-	' ' 
-}	root
-packet x_y_z {
-repeat  char[
-42
-    //x
-    ]	//	t
-  Pad,
-	} 
-    // packet A { u8 x, }")).
-Eval vm_compute in ("<<<M1659>>>" ++ check (runes_of_ascii "
-options { 
-Z9_
-	=  // trailing space 
-	""packet""
-	; 
-float 
-= false 
-;
-A
-	= ' '
-}
-
-// c
-	  MetaData 
-pack 
-{zchar[3
-
-] leftPad , zchar 
-falsey  `it's`
-,
-char[] 
-repeatCount , char[ 65535// " ++ [128512]%N ++ runes_of_ascii " emoji
-  ]  Z9_ ,
-} 
-	    //	t
+Eval vm_compute in ("<<<M1237>>>" ++ check (runes_of_ascii "// top
+options // c0
+{ // c1
+zchar // c2
+= // c3
+true // c4
+; // c5
+Pad // c6
+= // c7
+char[ // c8
+00 // c9
+] // c10
+a1 // c11
+= // c12
+uint32 // c13
+BodyLength // c14
+= // c15
+true // c16
+; // c17
+} // c18
+root // c19
+packet // c20
+T // c21
+{ // c22
+@lengthOf( // c23
+repeatCount // c24
+) // c25
+@tag( // c26
+1 // c27
+) // c28
+@calculatedFrom( // c29
+""a	b"" // c30
+) // c31
+string // c32
+stringy // c33
+@calculatedFrom( // c34
+""\n"" // c35
+) // c36
+`u8 x,` // c37
+, // c38
+} // c39
 ")).
-Eval vm_compute in ("<<<M249>>>" ++ check (runes_of_ascii "
-packet
-rootA {
-} // trailing space 
-packet f32a //	t
-{ match
-zchar as zchar
-    {	65535 : f32a , 7 : charz// trailing space 
-,
-""{,}""
+Eval vm_compute in ("<<<M161>>>" ++ check (runes_of_ascii "packet rootA{ options1 _x , u64
+    Header , } packet lengthOf {
+    @rightPad ( ' '	)
+@lengthOf( u128 // trailing space 
+)	@calculatedFrom(	""a\""b"" )  A {string i64_	`it's`,
 //	t
+// trailing space 
+uint8
+body
+, match pack as u {
+// @lengthOf(
+// trailing space 
+00 : charz , 00: int ,3
+: falsey 255 :body
+    ,
+[0123456789 ] :x_y_z ,
+// a // b
+//
+}
+,
+} ,
+} MetaData chars{ u128
+    zchar , char[ 42  ]
+// a // b
+// a // b
+metadata
+    , }
+")).
+Eval vm_compute in ("<<<M306>>>" ++ check (runes_of_ascii "packet rootA { @tag(0123456789 ) options1 {int32 uint8x
+    `u8 x,`
+    , u8x
 //x
-: Header , 42
-    :a1 // packet A { u8 x, }
-, }
-, }
+// packet A { u8 x, }
+{
+    match Header as
+    metadata {[	10 ]
+: pack } ,
+    } , f64 // `tick` ""quote"" 'q'
+chars , }
+, @lengthOf( body ) u64
+// @lengthOf(
+//
+Z9_ , }
+MetaData repeatCount
+    {zchar[10 ] string_ , f64 A
+, u32 BodyLength , zchar[ 00 ] uint8x ,
+    trueish
+leftPad,char[ 65535  ] rootA	, }
+//	t
 ")).
-Eval vm_compute in ("<<<M1293>>>" ++ check (runes_of_ascii "packet A {
-    u8 a,
+Eval vm_compute in ("<<<M1886>>>" ++ check (runes_of_ascii "packet a1 {
+    @calculatedFrom(""`tick`"")
+    uint32 charz `crlf
+    line`,
+    // c
+    //x
+    a1 `tab	here`,
 }
-packet B {
-    u16 b,
+
+options {
+    // " ++ [27880; 37322]%N ++ runes_of_ascii "
+    // " ++ [128512]%N ++ runes_of_ascii " emoji
+    stringy = 255;
+    metadata = 4294967296
+    pack = string;
+    crc = string;
 }
-root packet P {
-    u8 K1,
-    u8 K2,
-    match K1 as M1 {
-        1 : A,
-    },
-    match K2 as M2 {
-        1 : B,
-    },
+
+root packet crc {
+    @tag(42)
+    @calculatedFrom(""abc"")
+    @rightPad('0')
+    u128 u8x,
+    @lengthOf(len)
+    uint16 int,
+}")).
+Eval vm_compute in ("<<<M323>>>" ++ check (runes_of_ascii "options{ }
+MetaData  string_ // `tick` ""quote"" 'q'
+{ u32
+matchKey `u8 x,`,
+    string  MetaDataX , uint8
+Logon, uint64 options1
+, char[ 00 ] len
+// `tick` ""quote"" 'q'
+// trailing space 
+`tab	here` , u8
+options1
+, }// a // b
+packet a1 { chars ,
+char[]
+i64_ @lengthOf(
+    // " ++ [27880; 37322]%N ++ runes_of_ascii "
+    stringy
+) ,char T,repeat i8 charz
+`a\`
+,
 }
 ")).
-Eval vm_compute in ("<<<M1849>>>" ++ check (runes_of_ascii "packet A {
+Eval vm_compute in ("<<<M205>>>" ++ check (runes_of_ascii "  root packet
+    chars{ string T `say ""hi""`
+, @tag(
+    1  ) body { repeat o { f64 Packet @calculatedFrom( ""a\\"") ,  } , }	,
+} packet pack
+// @lengthOf(
+// a // b
+{
+@tag( 4294967296 // `tick` ""quote"" 'q'
+) repeat char[]
+    Logon
+    // trailing space 
+    , repeat
+BodyLength len ,
+    // c
+    }")).
+Eval vm_compute in ("<<<M1360>>>" ++ check (runes_of_ascii "options {
+    LittleEndian = false;
+    StringPrefixLenType = u16;
+}
+packet Heartbeat {
+    @rightPad('0') char[7] seqNo,
+    uint64 Tail,
+    i16 Flags,
+    u16 msgKind,
+}
+root packet Reject {
+    zchar[3] tag7,
+    repeat Heartbeat,
+    repeat string clOrdID,
+}
+")).
+Eval vm_compute in ("<<<M190>>>" ++ check (runes_of_ascii "packet // @lengthOf(
+f32a
+    {	@rightPad (
+    '0' ) @lengthOf( BodyLength ) uint8 Foo ``,
+    //x
+    char[]
+    options1 @calculatedFrom(
+    ""it's"" ) ,@tag(255/// triple
+) uint64
+    Header @calculatedFrom( ""abc""
+) `
+`
+,}
+
+")).
+Eval vm_compute in ("<<<M207>>>" ++ check (runes_of_ascii "
+MetaData chars { } options
+{ As
+= true ;As // `tick` ""quote"" 'q'
+= false; stringy
+= true} packet repeatCount  {string
+    float@lengthOf(
+    matchKey )
+// packet A { u8 x, }
+//x
+`say ""hi""` ,
+}
+")).
+Eval vm_compute in ("<<<M1739>>>" ++ check (runes_of_ascii "packet A {
     match k as n {
         [
-            1, ""bb"", 007, ""d"", 5,
-            ""f"", 7, ""h"", 9, ""j"",
-            11
+            ""a"", ""bb"", ""c c"", ""d"", ""e"",
+            ""f"", ""g"", ""h"", ""i"", ""j"",
+            ""k"", ""l""
         ] : B,
         2 : C,
     },
 }")).
-Eval vm_compute in ("<<<M1480>>>" ++ check (runes_of_ascii "
-packet 
-i64_
-{ }
-MetaData
-uint8x { Packet
-tag
-    ,
-u8	repeatCount  ,
-	x_y_z	_x
-
-    `" ++ [233]%N ++ runes_of_ascii "`  ,  zchar[
-    42
-    ]
-	crc
-	`a\`
-, 
-}
-
-    options{ }
-")).
-Eval vm_compute in ("<<<M531>>>" ++ check (runes_of_ascii "packet uint8x
+Eval vm_compute in ("<<<M431>>>" ++ check (runes_of_ascii "packet uint8x
 { match pack
     as msg_type	{
-    0123456789 :	float
-}
-,
-} packet //	t
-a1
-    { } options {packetx
-    = '\x00'	; u128= ""a	b""  ; } }
-")).
-Eval vm_compute in ("<<<M432>>>" ++ check (runes_of_ascii "packet uint8x
-{ match pack
-    as msg_type	{
-    : 0123456789	float
+    0123456789 0123456789 :	float
 }
 ,
 } packet //	t
@@ -900,18 +717,18 @@ a1
     { } options {packetx
     = '\x00'	; u128= ""a	b""  ; }
 ")).
-Eval vm_compute in ("<<<M455>>>" ++ check (runes_of_ascii "packet uint8x
+Eval vm_compute in ("<<<M458>>>" ++ check (runes_of_ascii "packet uint8x
 { match pack
     as msg_type	{
     0123456789 :	float
 }
 ,
- packet //	t
+char[] packet //	t
 a1
     { } options {packetx
     = '\x00'	; u128= ""a	b""  ; }
 ")).
-Eval vm_compute in ("<<<M510>>>" ++ check (runes_of_ascii "packet uint8x
+Eval vm_compute in ("<<<M496>>>" ++ check (runes_of_ascii "packet uint8x
 { match pack
     as msg_type	{
     0123456789 :	float
@@ -920,230 +737,249 @@ Eval vm_compute in ("<<<M510>>>" ++ check (runes_of_ascii "packet uint8x
 } packet //	t
 a1
     { } options {packetx
-    = '\x00'	; = ""a	b""  ; }
+    = = '\x00'	; u128= ""a	b""  ; }
 ")).
-Eval vm_compute in ("<<<M677>>>" ++ check (runes_of_ascii "// @lengthOf(
-packet i8i8 { u128 o , }
-options { MetaDataX = true;
-    BodyLength =""packet"" x_y_z 007 =
-crc //x
-= ""abc"" ;
-    msg_type =
-i16 }")).
-Eval vm_compute in ("<<<M704>>>" ++ check (runes_of_ascii "// @lengthOf(
-packet i8i8 { u128 o , }
-options { MetaDataX = true;
-    BodyLength =""packet"" x_y_z 007
-crc //x
-= ""abc"" ;
-    msg_type =
-i16 }")).
-Eval vm_compute in ("<<<M519>>>" ++ check (runes_of_ascii "packet uint8x
+Eval vm_compute in ("<<<M417>>>" ++ check (runes_of_ascii "packet uint8x
 { match pack
-    as msg_type	{
+    msg_type as	{
     0123456789 :	float
 }
 ,
 } packet //	t
 a1
     { } options {packetx
-    = '\x00'	; u128")).
-Eval vm_compute in ("<<<M1545>>>" ++ check (runes_of_ascii "MetaData leftPad {
+    = '\x00'	; u128= ""a	b""  ; }
+")).
+Eval vm_compute in ("<<<M445>>>" ++ check (runes_of_ascii "packet uint8x
+{ match pack
+    as msg_type	{
+    0123456789 :	float
+
+,
+} packet //	t
+a1
+    { } options {packetx
+    = '\x00'	; u128= ""a	b""  ; }
+")).
+Eval vm_compute in ("<<<M1667>>>" ++ check (runes_of_ascii "packet A {
+    Inner {
+        u8 x `tab
+                	x`,
+        Deep {
+            u8 y `tab
+                        	x`,
+        },
+    },
+}")).
+Eval vm_compute in ("<<<M657>>>" ++ check (runes_of_ascii "// @lengthOf(
+packet i8i8 { u128 o , }
+options { MetaDataX = true;
+    BodyLength =""packet"" x_y_z= 007
+?crc //x
+= ""abc"" ;
+    msg_type =
+i16 }")).
+Eval vm_compute in ("<<<M663>>>" ++ check (runes_of_ascii "// @lengthOf(
+packet i8i8 { u128 o , }
+options { MetaDataX = true;
+    BodyLength =""packet"" x_y_z= 007
+crc //x
+= ""abc"" ;
+    msg_type =
+i16 ")).
+Eval vm_compute in ("<<<M1443>>>" ++ check (runes_of_ascii "packet A {
+    match k as n {
+        [
+            1, 22, ""c c"", 4, 5,
+            ""f"", 7, 8, ""i""
+        ] : B,
+        2 : C,
+    },
+}")).
+Eval vm_compute in ("<<<M1464>>>" ++ check (runes_of_ascii "MetaData leftPad {
     chars MetaDataX,
 }
 
 packet repeatCount {
+    // c
     char[255] uint8x `" ++ [233]%N ++ runes_of_ascii "`,
 }
 
 MetaData pack {
-    // c
     As Foo,
 }")).
-Eval vm_compute in ("<<<M1532>>>" ++ check (runes_of_ascii "packet A {
-    u16 len @lengthOf(body) `tab
-    	x`,
-    u32 crc @calculatedFrom(""CRC32"") `tab
-    	x`,
-    string body,
-}")).
-Eval vm_compute in ("<<<M1154>>>" ++ check (runes_of_ascii "MetaData leftPad { chars MetaDataX ,
-// c
-} packet repeatCount { char[ 255 ] uint8x `" ++ [233]%N ++ runes_of_ascii "` , } MetaData pack { As Foo , }")).
-Eval vm_compute in ("<<<M1186>>>" ++ check (runes_of_ascii "MetaData leftPad { chars MetaDataX , } packet repeatCount { char[ 255 ] uint8x `" ++ [233]%N ++ runes_of_ascii "` , } MetaData pack { As Foo
-// c
-, }")).
-Eval vm_compute in ("<<<M1577>>>" ++ check (runes_of_ascii "packet asx {
-    match u128 as lengthOf {
-        //	t
-        // `ti/ck` ""quote"" 'q'
-        255 : x,
+Eval vm_compute in ("<<<M504>>>" ++ check (runes_of_ascii "packet uint8x
+{ match pack
+    as msg_type	{
+    0123456789 :	float
+}
+,
+} packet //	t
+a1
+    { } options {packetx
+    =")).
+Eval vm_compute in ("<<<M1149>>>" ++ check (runes_of_ascii "MetaData leftPad { chars // c
+MetaDataX , } packet repeatCount { char[ 255 ] uint8x `" ++ [233]%N ++ runes_of_ascii "` , } MetaData pack { As Foo , }")).
+Eval vm_compute in ("<<<M1181>>>" ++ check (runes_of_ascii "MetaData leftPad { chars MetaDataX , } packet repeatCount { char[ 255 ] uint8x `" ++ [233]%N ++ runes_of_ascii "` , } MetaData pack { // c
+As Foo , }")).
+Eval vm_compute in ("<<<M136>>>" ++ check (runes_of_ascii "// a // b
+options { // " ++ [128512]%N ++ runes_of_ascii " emoji
+calculatedFrom=
+'\x00'	; BodyLength = true ;asx // packet A { u8 x, }
+= true }")).
+Eval vm_compute in ("<<<M1279>>>" ++ check (runes_of_ascii "options {
+    LittleEndian = true;
+}
+root packet P {
+    u16 a,
+    u32 Sum @calculatedFrom(""CR\
+C32""),
+}
+")).
+Eval vm_compute in ("<<<M920>>>" ++ check (runes_of_ascii "packet A {
+    Inner {
+        u8 x `a
+b`,
+        Deep {
+            u8 y `a
+b`,
+        },
     },
 }")).
-Eval vm_compute in ("<<<M24>>>" ++ check (runes_of_ascii "options { metadata
-= '\x00' ;
-    u128
-=
-    ""CRC32"" ; charz = ' 'options1 = 00 ; }
-packet string_ { }
-")).
-Eval vm_compute in ("<<<M160>>>" ++ check (runes_of_ascii "
-MetaData zchar { roots
-A , char[] falsey `line1
-line2` ,
-// " ++ [128512]%N ++ runes_of_ascii " emoji
-// @lengthOf(
-int crc ,	} //	t")).
-Eval vm_compute in ("<<<M876>>>" ++ check (runes_of_ascii "packet A {
-  match k as n {
-    [""a"", ""bb"", 007, ""d"", ""e"", 66, ""g"", ""h"", 9] : B
-    2 : C
-  },
-}")).
-Eval vm_compute in ("<<<M1672>>>" ++ check (runes_of_ascii "
-packet A{  Inner 
-{
-
-match
-k
-
-    as n	{
-	[
-1
-	,
-22
-]
-    :B
-
-    ,
-
-}	,}
-	,
-    }
-
-")).
-Eval vm_compute in ("<<<M632>>>" ++ check (runes_of_ascii "
-packet
-    asx {match u128 a|s lengthOf
-{
-//	t
-// `tick` ""quote"" 'q'
-255 : x ,
-    } ,	}")).
-Eval vm_compute in ("<<<M1389>>>" ++ check (runes_of_ascii "MetaData crc {
-    Pad T,
-    zchar[0123456789] a1,
-    int8 trueish,
-}
-
-packet float {
-}")).
-Eval vm_compute in ("<<<M1955>>>" ++ check (runes_of_ascii "
-
-  packet A  { match k
-	as n
-
-    {  [ 1,""bb""	,
-
-    007
+Eval vm_compute in ("<<<M258>>>" ++ check (runes_of_ascii "packet
+    metadata{ u32 // `tick` ""quote"" 'q'
+Packet `say ""hi""`
 ,
-	""d""	] :B 2 : C}
-,
-
-}")).
-Eval vm_compute in ("<<<M815>>>" ++ check (runes_of_ascii "packet A {
+    // trailing space 
+    }")).
+Eval vm_compute in ("<<<M863>>>" ++ check (runes_of_ascii "packet A {
   match k as n {
-    [""a"", ""bb"", ""c c"", ""d"", ""e""] : B,
+    [""a"", ""bb"", 007, ""d"", ""e"", 66, ""g"", ""h""] : B
     2 : C
   },
 }")).
-Eval vm_compute in ("<<<M840>>>" ++ check (runes_of_ascii "packet A {
+Eval vm_compute in ("<<<M842>>>" ++ check (runes_of_ascii "packet A {
   match k as n {
-    [1, 22, 007, 4, 5, 66, 7] : B
+    [""a"", ""bb"", ""c c"", ""d"", ""e"", ""f"", ""g""] : B
     2 : C
   },
 }")).
-Eval vm_compute in ("<<<M1859>>>" ++ check (runes_of_ascii "packet
-
-A	{ 
-match k
-	as  n {[ 
-""a""
-,
-""bb""
-    ] : B,	2
-
-    :C } , }
-")).
-Eval vm_compute in ("<<<M809>>>" ++ check (runes_of_ascii "packet A {
-  match k as n {
-    [1, 22, ""c c"", 4] : B
-    2 : C
-  },
-}")).
-Eval vm_compute in ("<<<M628>>>" ++ check (runes_of_ascii "
+Eval vm_compute in ("<<<M609>>>" ++ check (runes_of_ascii "
 packet
     asx {match u128 as lengthOf
 {
 //	t
-// `tick` ""quote""")).
-Eval vm_compute in ("<<<M261>>>" ++ check (runes_of_ascii "options{ asx= ""1"" //	t
-Pad =  0 stringy =
-    '\x00'
-    ; }")).
-Eval vm_compute in ("<<<M1423>>>" ++ check (runes_of_ascii "
-MetaData
-_x {  i64 u128
-	,
-	Packet	Header	,
-
-    }
-")).
-Eval vm_compute in ("<<<M1199>>>" ++ check (runes_of_ascii "packet // c
-body { i32 f32a `{ , }` , } options { }")).
-Eval vm_compute in ("<<<M333>>>" ++ check (runes_of_ascii "  MetaData
-x_y_z{ }	packet chars	{	} options {}
-")).
-Eval vm_compute in ("<<<M755>>>" ++ check (runes_of_ascii "string i8 ) } u8 [ uint32 ] } = uint8 '\x00'")).
-Eval vm_compute in ("<<<M1702>>>" ++ check (runes_of_ascii "  MetaData
-
-    u{ 
-        // c
-
-	}
-
-")).
-Eval vm_compute in ("<<<M1897>>>" ++ check (runes_of_ascii "packet
-
-    x
-{
-} 
-    // c
- 
-")).
-Eval vm_compute in ("<<<M934>>>" ++ check (runes_of_ascii "root packet A {
-    u8 x `
-`,
-}")).
-Eval vm_compute in ("<<<M175>>>" ++ check (runes_of_ascii "
-packet calculatedFrom { } 	 ")).
-Eval vm_compute in ("<<<M1652>>>" ++ check (runes_of_ascii "// c" ++ [12288]%N ++ runes_of_ascii "
-	  packet
-    A{} ")).
-Eval vm_compute in ("<<<M1103>>>" ++ check (runes_of_ascii "// c
-MetaData tag { }")).
-Eval vm_compute in ("<<<M1130>>>" ++ check (runes_of_ascii "MetaData // c
-u { }")).
-Eval vm_compute in ("<<<M1021>>>" ++ check (runes_of_ascii "packet A {
+// `tick` ""quote"" 'q'
+255 : x }
+    , ,	}")).
+Eval vm_compute in ("<<<M1086>>>" ++ check (runes_of_ascii "packet A { match k as n // a
+ { // b
+ 1 // c
+ : // d
+ B // e
+ , // f
+ } // g
+ , // h
+ }")).
+Eval vm_compute in ("<<<M1717>>>" ++ check (runes_of_ascii "packet order_item {
+    u8 a,
 }
-// c" ++ [8239]%N)).
-Eval vm_compute in ("<<<M999>>>" ++ check (runes_of_ascii "packet A {
-}// c" ++ [8192]%N)).
-Eval vm_compute in ("<<<M378>>>" ++ check (runes_of_ascii "// @lengthOf(
+
+root packet new_order {
+    order_item,
+    u8 x,
+}")).
+Eval vm_compute in ("<<<M1632>>>" ++ check (runes_of_ascii "packet
+
+    body { 
+    // c
+    i32 f32a
+    `{ , }`
+
+,
+    } options
+
+{ 
+}
+")).
+Eval vm_compute in ("<<<M826>>>" ++ check (runes_of_ascii "packet A {
+  match k as n {
+    [1, 22, 007, 4, 5, 66] : B,
+    2 : C
+  },
+}")).
+Eval vm_compute in ("<<<M960>>>" ++ check (runes_of_ascii "packet A {
+    B b `tab
+	x`,
+    B `tab
+	x`,
+    repeat B bs `tab
+	x`,
+}")).
+Eval vm_compute in ("<<<M1280>>>" ++ check (runes_of_ascii "root packet P {
+    u16 a,
+    u32 Sum @calculatedFrom(""CRC32""),
+}
+")).
+Eval vm_compute in ("<<<M783>>>" ++ check (runes_of_ascii "packet A {
+  match k as n {
+    [1, ""bb""] : B
+    2 : C
+  },
+}")).
+Eval vm_compute in ("<<<M1617>>>" ++ check (runes_of_ascii "root packet string_ {
+    char[] matchKey,
+}
+
+packet x {
+}")).
+Eval vm_compute in ("<<<M1078>>>" ++ check (runes_of_ascii "// a
+MetaData M {} // b
+// c
+MetaData N {} // d
+// e")).
+Eval vm_compute in ("<<<M181>>>" ++ check (runes_of_ascii "options{ packetx=// " ++ [27880; 37322]%N ++ runes_of_ascii "
+string Logon // " ++ [27880; 37322]%N ++ runes_of_ascii "
+=  int8}")).
+Eval vm_compute in ("<<<M1221>>>" ++ check (runes_of_ascii "// top
+packet // c0
+x // c1
+{ // c2
+} // c3
+")).
+Eval vm_compute in ("<<<M1742>>>" ++ check (runes_of_ascii "
+options {a
+	= 
+""x\
+y""; b
+    =""x\
+y""
+}
+")).
+Eval vm_compute in ("<<<M1092>>>" ++ check (runes_of_ascii "root // a
+ packet // b
+ A // c
+ { }")).
+Eval vm_compute in ("<<<M1609>>>" ++ check (runes_of_ascii "packet A {
+    u8 x `d" ++ [6158]%N ++ runes_of_ascii "`,// c" ++ [6158]%N ++ runes_of_ascii "
+}")).
+Eval vm_compute in ("<<<M1038>>>" ++ check (runes_of_ascii "packet A {
+ u8 x `d" ++ [12]%N ++ runes_of_ascii "`, // c" ++ [12]%N ++ runes_of_ascii "
+}")).
+Eval vm_compute in ("<<<M1901>>>" ++ check (runes_of_ascii "
+packet	x { // c
+      }
 
 ")).
-Eval vm_compute in ("<<<M1911>>>" ++ check (runes_of_ascii "
-// c" ++ [12288]%N ++ runes_of_ascii "
- 
+Eval vm_compute in ("<<<M1112>>>" ++ check (runes_of_ascii "MetaData tag { }
+// c
 ")).
-Eval vm_compute in ("<<<M754>>>" ++ check (runes_of_ascii "Y )'")).
+Eval vm_compute in ("<<<M1836>>>" ++ check (runes_of_ascii "packet leftPad  {}
+")).
+Eval vm_compute in ("<<<M996>>>" ++ check (runes_of_ascii "packet A {
+}
+// c" ++ [5760]%N)).
+Eval vm_compute in ("<<<M1611>>>" ++ check (runes_of_ascii "// trailing space ")).
+Eval vm_compute in ("<<<M11>>>" ++ check (runes_of_ascii "packet zchar { }")).
+Eval vm_compute in ("<<<M749>>>" ++ check ([1; 65533]%N ++ runes_of_ascii ">&EQX" ++ [65533]%N ++ runes_of_ascii "P" ++ [65533; 65533]%N)).
+Eval vm_compute in ("<<<M1764>>>" ++ check (runes_of_ascii "// " ++ [27880; 37322]%N)).
